@@ -428,6 +428,9 @@ def run(ctx):
     r02f(ctx)
     r02g(ctx)
     r02h(ctx)
+    # attaching the caller's own row or cell (instead of a copy) moves a node that already sits in a table while the position map counts a new item (shared with C10)
+    from .c10 import r10h
+    r10h(ctx)
 
 
 from ..selftest import Seed, unparse_seed  # noqa: E402
